@@ -22,6 +22,7 @@ TIER_SIZES = {
     "overrate": (6, 40),    # data rate above the hot buffer's maximum ingest rate
     "tier": (20, 160),      # hot buffer beyond its tiering threshold (known findings live here)
     "overlap": (8, 40),
+    "late": (3, 16),        # long quiet stretches: the last observation falls due around t = 100 / t = 1000
 }
 PERM_KINDS = ["AT", "AI", "PI", "ST"]
 
@@ -61,6 +62,15 @@ def jobs(tier, seed):
     rng = random.Random(f"overlap-{seed}")
     for i in range(TIER_SIZES["overlap"][idx]):
         out.append(("overlap", gen.random_cfg(rng, alg=algs[i % 3], family="overlap", nobs=2), {}))
+    rng = random.Random(f"late-{seed}")
+    for i in range(TIER_SIZES["late"][idx]):
+        c = gen.random_cfg(rng, alg=["batch", "queue"][i % 2], family="roomy", nobs=2, maxn=3)
+        c.pop("decoy", None)
+        off = [997, 98, 999, 99, 998][i % 5]
+        c["obs"][-1]["est"] = off + rng.randint(0, 1)
+        if "estT" in c["obs"][-1]:
+            c["obs"][-1].pop("estT")
+        out.append(("late", gen.normalise(c), {}))
     rng = random.Random(f"perm-{seed}")
     for i in range(TIER_SIZES["perm"][idx]):
         c = gen.random_cfg(rng, alg=algs[i % len(algs)], family="roomy")
